@@ -245,3 +245,7 @@ def run(chk, repo):
     ok3 = len(sls) == 1 and base in (unparse(sls[0].value), unparse(sls[0].value) + '.seq')
     chk.ob('C08.f', 'the listed sequence is [seq_start:seq_end] of the translation that was searched', go.where, ok3,
            f"listed slice base {[unparse(x.value) for x in sls]} vs searched {base}", key=f"{ORFS}::same-translation", fn=go.qual)
+    # ------------------------------------------------------------------ shared: option plumbing by name
+    from rules.shared import optname
+    chk.clauses.append('C08.g (shared R-THREAD) an option value bound to a name that is itself a CLI option carries that very option')
+    optname(chk, repo, 'C08.g', ['cli.call_novel_orf'], floor=0)
